@@ -3,6 +3,7 @@
 #include "lincheck.hpp"
 #include <deque>
 #include <optional>
+#include <string>
 #include <xenium/nikolaev_bounded_queue.hpp>
 #include <xenium/vyukov_bounded_queue.hpp>
 
@@ -17,44 +18,70 @@ struct IBQ {
   virtual size_t capacity() const = 0;
 };
 
-template <bool W>
+// element conversion: int, or a std::string (a type with a destructor and a move that is not a copy: an element that is
+// destroyed or moved once too often comes out empty / as garbage and decodes to 0, which nobody pushed)
+template <class T>
+struct Elem;
+template <>
+struct Elem<int> {
+  static int enc(int v) { return v; }
+  static int dec(int v) { return v; }
+};
+template <>
+struct Elem<std::string> {
+  static std::string enc(int v) { return std::string("element-with-a-heap-buffer-#") + std::to_string(v); }
+  static int dec(const std::string& s) {
+    size_t p = s.rfind('#');
+    if (p == std::string::npos || s.compare(0, p + 1, "element-with-a-heap-buffer-#") != 0) return 0;
+    return atoi(s.c_str() + p + 1);
+  }
+};
+
+template <bool W, class T = int>
 struct VyQ : IBQ {
-  xenium::vyukov_bounded_queue<int, xenium::policy::default_to_weak<W>> q;
+  xenium::vyukov_bounded_queue<T, xenium::policy::default_to_weak<W>> q;
   size_t cap;
   explicit VyQ(size_t n) : q(n), cap(n) {}
   bool push(int kind, int v) override {
     switch (kind) {
-      case OP_PUSH_S: return q.try_push_strong(v);
-      case OP_PUSH_W: return q.try_push_weak(v);
-      default: return q.try_push(v);
+      case OP_PUSH_S: return q.try_push_strong(Elem<T>::enc(v));
+      case OP_PUSH_W: return q.try_push_weak(Elem<T>::enc(v));
+      default: return q.try_push(Elem<T>::enc(v));
     }
   }
   bool pop(int kind, int& v) override {
+    T e{};
+    bool ok;
     switch (kind) {
-      case OP_POP_S: return q.try_pop_strong(v);
-      case OP_POP_W: return q.try_pop_weak(v);
+      case OP_POP_S: ok = q.try_pop_strong(e); break;
+      case OP_POP_W: ok = q.try_pop_weak(e); break;
       case OP_POP_OPT: {
         auto r = q.pop();
-        if (r) v = *r;
+        if (r) v = Elem<T>::dec(*r);
         return r.has_value();
       }
-      default: return q.try_pop(v);
+      default: ok = q.try_pop(e);
     }
+    if (ok) v = Elem<T>::dec(e);
+    return ok;
   }
   size_t capacity() const override { return cap; }
 };
-template <unsigned R>
+template <unsigned R, class T = int>
 struct NikQ : IBQ {
-  xenium::nikolaev_bounded_queue<int, xenium::policy::pop_retries<R>> q;
+  xenium::nikolaev_bounded_queue<T, xenium::policy::pop_retries<R>> q;
   explicit NikQ(size_t n) : q(n) {}
-  bool push(int, int v) override { return q.try_push(v); }
+  bool push(int, int v) override { return q.try_push(Elem<T>::enc(v)); }
   bool pop(int kind, int& v) override {
     if (kind == OP_POP_OPT) {
       auto r = q.pop();
-      if (r) v = *r;
+      if (r) v = Elem<T>::dec(*r);
       return r.has_value();
     }
-    return q.try_pop(v);
+    T e{};
+    bool ok = q.try_pop(e);
+    if (ok) v = Elem<T>::dec(e);
+    return ok;
   }
   size_t capacity() const override { return q.capacity(); }
 };
@@ -74,6 +101,8 @@ const Cfg cfgs[] = {
   {"vyukov_default_weak", true, true, mk<VyQ<true>>},
   {"nikolaev_bounded_r0", false, false, mk<NikQ<0>>},
   {"nikolaev_bounded_r1", false, false, mk<NikQ<1>>},
+  {"vyukov<string>", true, false, mk<VyQ<false, std::string>>},
+  {"nikolaev_bounded_r0<string>", false, false, mk<NikQ<0, std::string>>},
 };
 
 struct BModel {
@@ -126,14 +155,14 @@ class BQHarness : public Harness {
 
 public:
   const char* name() const override { return "bqueues"; }
-  int num_configs() const override { return 4; }
+  int num_configs() const override { return (int)(sizeof(cfgs) / sizeof(cfgs[0])); }
   const char* config_name(int i) const override { return cfgs[i].name; }
   const char* op_name(int k) const override {
     static const char* n[] = {"?", "try_push", "try_push_strong", "try_push_weak", "try_pop", "try_pop_strong", "try_pop_weak", "pop", "drain_pop", "fill_push"};
     return k >= 1 && k <= 9 ? n[k] : "?";
   }
   void generate(GenCtx& g, Program& p) override {
-    p.config = (int)g.rng.below(4);
+    p.config = (int)g.rng.below(sizeof(cfgs) / sizeof(cfgs[0]));
     const Cfg& c = cfgs[p.config];
     int cap = c.vyukov ? (g.rng.chance(60) ? 2 : 4) : g.rng.range(1, 5);
     int real_cap = 1;
